@@ -1,13 +1,507 @@
-// Package c07 is the harness for property C07 (runs the real kapacitor code, prints op lines).
+// Package c07 is the harness for property C07 (graceful stop): it runs REAL stream tasks on a real
+// TaskMaster (alert service, HTTP post service, fake InfluxDB client, recording UDFs), realises one
+// schedule class per case with gates inside the outputs, stops the task with a bounded wait and prints what
+// every output had been handed when the stop returned, plus a census of the task's goroutines.
+//
+// op line:  run <chain> <stop> <class> <n> => <acc> <stopres> <census> <outs> <late> <nodeerr>
+//
+//	chain   = node kinds after the implicit `stream` source, comma separated:
+//	          from | where | post | alert | influx:<B> | udf | fail:<K> | loop
+//	stop    = task (TaskMaster.StopTask) | delete (DeleteTask) | close (TaskMaster.Close)
+//	class   = drained (stop after everything was handed over) | gated (outputs blocked until the stop is
+//	          under way) | immediate (stop right after the last write returned) | early (n=0, stop right
+//	          after StartTask)
+//	acc     = number of points whose WritePoints call had returned nil when the stop was requested
+//	stopres = ok | err (stop returned an error) | hang (did not return within the bound)
+//	census  = task goroutines still alive after the stop (settled), relative to before the task started
+//	outs    = per output node  <idx>:<total>:<distinct>:<missing>:<calls>   (calls = sizes of InfluxDB writes)
+//	late    = deliveries that arrived after the stop had returned
+//	nodeerr = 1 when some node of the task finished with an error (ExecutingTask.Wait)
 package c07
 
 import (
+	"bufio"
 	"fmt"
+	"io"
 	"os"
+	"os/exec"
+	"strconv"
+	"strings"
+	"sync/atomic"
+	"time"
+
+	imodels "github.com/influxdata/influxdb/models"
+	"github.com/influxdata/kapacitor"
+
+	"verifharness/kit"
 )
 
-// Run is replaced by the property's harness.
+const edgeCap = 1000 // defaultEdgeBufferSize (edge.go); the generator only uses it to place boundaries
+
+var caseSeq int64
+
+type nodeSpec struct {
+	kind string
+	arg  int
+}
+
+func parseChain(s string) ([]nodeSpec, error) {
+	var out []nodeSpec
+	for _, t := range strings.Split(s, ",") {
+		p := strings.SplitN(t, ":", 2)
+		ns := nodeSpec{kind: p[0]}
+		if len(p) == 2 {
+			v, err := strconv.Atoi(p[1])
+			if err != nil {
+				return nil, err
+			}
+			ns.arg = v
+		}
+		switch ns.kind {
+		case "from", "where", "post", "alert", "udf", "loop":
+		case "influx", "fail":
+			if len(p) != 2 {
+				return nil, fmt.Errorf("%s needs an argument", ns.kind)
+			}
+		default:
+			return nil, fmt.Errorf("unknown node kind %q", ns.kind)
+		}
+		out = append(out, ns)
+	}
+	if len(out) == 0 || out[0].kind != "from" {
+		return nil, fmt.Errorf("chain must start with from")
+	}
+	return out, nil
+}
+
+type outInfo struct {
+	idx int
+	t   *sinkTarget
+}
+
+type result struct {
+	acc     int
+	stopres string
+	census  int
+	outs    []string
+	late    int
+	nodeErr int // 1 = some node of the task finished with an error
+}
+
+func (r result) String() string {
+	o := "-"
+	if len(r.outs) > 0 {
+		o = strings.Join(r.outs, ",")
+	}
+	return fmt.Sprintf("%d %s %d %s %d %d", r.acc, r.stopres, r.census, o, r.late, r.nodeErr)
+}
+
+func mkPoints(from, to int) []imodels.Point {
+	pts := make([]imodels.Point, 0, to-from)
+	base := time.Unix(1600000000, 0).UTC()
+	for i := from; i < to; i++ {
+		p, err := imodels.NewPoint("m", imodels.NewTags(map[string]string{"h": "a"}), imodels.Fields{"i": int64(i)}, base.Add(time.Duration(i)*time.Second))
+		if err != nil {
+			panic(err)
+		}
+		pts = append(pts, p)
+	}
+	return pts
+}
+
+func runCase(chainS, stopKind, class string, n int, stopBound time.Duration) (res result, err error) {
+	chain, err := parseChain(chainS)
+	if err != nil {
+		return res, err
+	}
+	key := fmt.Sprintf("c%d", atomic.AddInt64(&caseSeq, 1))
+	hs := sink()
+	defer hs.unregister("/" + key + "/")
+	gateOpen := class != "gated"
+	g := newGate(gateOpen)
+	fi := &fakeInflux{clients: map[string]*sinkTarget{}}
+	var outs []outInfo
+	var sb strings.Builder
+	sb.WriteString("stream\n")
+	for j, ns := range chain {
+		idx := j + 1
+		switch ns.kind {
+		case "from":
+			sb.WriteString("  |from().measurement('m')\n")
+		case "where":
+			sb.WriteString("  |where(lambda: TRUE)\n")
+		case "post":
+			t := &sinkTarget{rec: newOutRec(), gate: g}
+			path := fmt.Sprintf("/%s/%d/p", key, idx)
+			hs.register(path, t)
+			outs = append(outs, outInfo{idx, t})
+			fmt.Fprintf(&sb, "  |httpPost('http://%s%s')\n", hs.addr, path)
+		case "alert":
+			t := &sinkTarget{rec: newOutRec(), gate: g}
+			path := fmt.Sprintf("/%s/%d/a", key, idx)
+			hs.register(path, t)
+			outs = append(outs, outInfo{idx, t})
+			fmt.Fprintf(&sb, "  |alert().message('{{ index .Fields \"i\" }}').details('').crit(lambda: TRUE).post('http://%s%s')\n", hs.addr, path)
+		case "influx":
+			t := &sinkTarget{rec: newOutRec(), gate: g}
+			fi.clients[fmt.Sprintf("w%d", idx)] = t
+			outs = append(outs, outInfo{idx, t})
+			fmt.Fprintf(&sb, "  |influxDBOut().database('o').retentionPolicy('r').measurement('w%d').buffer(%d).flushInterval(1h)\n", idx, ns.arg)
+		case "udf":
+			sb.WriteString("  @sink()\n")
+		case "fail":
+			fmt.Fprintf(&sb, "  @failer().k(%d)\n", ns.arg)
+		case "loop":
+			sb.WriteString("  |kapacitorLoopback().database('lo').retentionPolicy('lr')\n")
+		}
+	}
+
+	tim := func(string) {}
+	if os.Getenv("VERIF_TIMING") != "" {
+		t0 := time.Now()
+		tim = func(what string) { fmt.Fprintf(os.Stderr, "   %s +%v\n", what, time.Since(t0).Round(time.Millisecond)) }
+		defer tim("cleanup")
+	}
+	before := census()
+	t, err := kit.NewTM(kit.TMOpts{})
+	if err != nil {
+		return res, err
+	}
+	t.TM.UDFService = &udfService{sink: t.Sink}
+	t.TM.InfluxDBService = fi
+	hung := false
+	defer func() {
+		g.Open()
+		if !hung {
+			t.Close()
+		}
+	}()
+	taskID := "t" + key
+	et, err := t.StartStream(taskID, sb.String(), []kapacitor.DBRP{{Database: "db", RetentionPolicy: "rp"}})
+	if err != nil {
+		return res, fmt.Errorf("start: %v\n%s", err, sb.String())
+	}
+
+	// ---- write the points: a point is ACCEPTED once its WritePoints call has returned nil
+	var accepted int64
+	writerDone := make(chan struct{})
+	go func() {
+		defer close(writerDone)
+		const chunk = 50
+		for i := 0; i < n; i += chunk {
+			j := i + chunk
+			if j > n {
+				j = n
+			}
+			if err := t.TM.WritePoints("db", "rp", imodels.ConsistencyLevelAll, mkPoints(i, j)); err != nil {
+				return
+			}
+			atomic.AddInt64(&accepted, int64(j-i))
+		}
+	}()
+	select {
+	case <-writerDone:
+	case <-time.After(10 * time.Second):
+		// the class asked for more points than the pipeline can hold while gated: not a valid case
+		g.Open()
+		<-writerDone
+		return res, fmt.Errorf("writer blocked (n=%d exceeds the gated capacity)", n)
+	}
+	res.acc = int(atomic.LoadInt64(&accepted))
+	tim("written")
+
+	progress := func() int64 {
+		var s int64
+		for _, o := range outs {
+			tot, _, ent := o.t.rec.snapshot()
+			s += int64(tot + ent)
+		}
+		return s
+	}
+	stats := func() int64 {
+		es, err := t.TM.ExecutionStats(taskID)
+		if err != nil {
+			return -1
+		}
+		var s int64
+		for _, ns := range es.NodeStats {
+			if v, ok := ns["collected"].(int64); ok {
+				s += v
+			}
+			if v, ok := ns["emitted"].(int64); ok {
+				s += v
+			}
+		}
+		return s + progress()
+	}
+	if class == "drained" || class == "gated" {
+		settle(stats, 4*time.Millisecond, 4, 10*time.Second)
+	}
+
+	tim("settled")
+	// ---- the stop, with a bounded wait
+	stopDone := make(chan error, 1)
+	go func() {
+		switch stopKind {
+		case "task":
+			stopDone <- t.TM.StopTask(taskID)
+		case "delete":
+			stopDone <- t.TM.DeleteTask(taskID)
+		default:
+			stopDone <- t.TM.Close()
+		}
+	}()
+	if class == "gated" {
+		// let the stop go as far as it can against the blocked outputs, then release them
+		settle(progress, 5*time.Millisecond, 4, 2*time.Second)
+		g.Open()
+	}
+	var atStop int
+	select {
+	case e := <-stopDone:
+		if e != nil {
+			res.stopres = "err"
+		} else {
+			res.stopres = "ok"
+		}
+	case <-time.After(stopBound):
+		res.stopres = "hang"
+		hung = true
+	}
+	tim("stopped")
+	if !hung && et.Wait() != nil {
+		res.nodeErr = 1
+	}
+	for _, o := range outs {
+		tot, dist, _ := o.t.rec.snapshot()
+		atStop += tot
+		calls := "-"
+		if chain[o.idx-1].kind == "influx" {
+			o.t.rec.mu.Lock()
+			var cs []string
+			cl := o.t.rec.calls
+			for i := 0; i < len(cl); {
+				j := i
+				for j < len(cl) && cl[j] == cl[i] {
+					j++
+				}
+				cs = append(cs, fmt.Sprintf("%dx%d", cl[i], j-i))
+				i = j
+			}
+			o.t.rec.mu.Unlock()
+			if len(cs) > 0 {
+				calls = strings.Join(cs, ".")
+			}
+		}
+		res.outs = append(res.outs, fmt.Sprintf("%d:%d:%d:%d:%s", o.idx, tot, dist, o.t.rec.missingBelow(res.acc), calls))
+	}
+	// ---- census (settled) and late deliveries
+	c := settle(func() int64 { return int64(census() - before) }, 5*time.Millisecond, 3, 1500*time.Millisecond)
+	if c < 0 {
+		c = 0
+	}
+	res.census = int(c)
+	tim("census")
+	final := 0
+	for _, o := range outs {
+		tot, _, _ := o.t.rec.snapshot()
+		final += tot
+	}
+	res.late = final - atStop
+	return res, nil
+}
+
+// ---------------------------------------------------------------------------------------------
+
+func opLine(chain, stop, class string, n int) string {
+	return fmt.Sprintf("run %s %s %s %d", chain, stop, class, n)
+}
+
+func execLine(line string, bound time.Duration) string {
+	if i := strings.Index(line, " => "); i >= 0 {
+		line = line[:i]
+	}
+	f := strings.Fields(line)
+	if len(f) != 5 || f[0] != "run" {
+		return line + " => badline"
+	}
+	n, _ := strconv.Atoi(f[4])
+	var out string
+	func() {
+		defer func() {
+			if r := recover(); r != nil {
+				out = line + " => panic"
+			}
+		}()
+		res, err := runCase(f[1], f[2], f[3], n, bound)
+		if err != nil {
+			fmt.Fprintln(os.Stderr, "c07:", line, ":", err)
+			out = line + " => invalid"
+			return
+		}
+		out = line + " => " + res.String()
+	}()
+	return out
+}
+
+// child mode: read op lines on stdin, execute each, answer with one line.
+func runChild(bound time.Duration) int {
+	sc := bufio.NewScanner(os.Stdin)
+	sc.Buffer(make([]byte, 1<<20), 1<<20)
+	w := bufio.NewWriter(os.Stdout)
+	for sc.Scan() {
+		l := strings.TrimSpace(sc.Text())
+		if l == "" {
+			continue
+		}
+		t0 := time.Now()
+		w.WriteString(execLine(l, bound))
+		w.WriteByte('\n')
+		w.Flush()
+		if os.Getenv("VERIF_TIMING") != "" {
+			fmt.Fprintf(os.Stderr, "c07 timing %v %s\n", time.Since(t0).Round(time.Millisecond), l)
+		}
+	}
+	return 0
+}
+
+// worker is a child process running the real code; a case that hangs the real code (or the child) costs
+// one child, not the check: the dispatcher kills it and starts another.
+type worker struct {
+	cmd *exec.Cmd
+	in  io.WriteCloser
+	out *bufio.Reader
+}
+
+func startWorker(tier string) (*worker, error) {
+	exe, err := os.Executable()
+	if err != nil {
+		return nil, err
+	}
+	cmd := exec.Command(exe, "-child", "1", "-tier", tier)
+	cmd.Stderr = os.Stderr
+	in, err := cmd.StdinPipe()
+	if err != nil {
+		return nil, err
+	}
+	o, err := cmd.StdoutPipe()
+	if err != nil {
+		return nil, err
+	}
+	if err := cmd.Start(); err != nil {
+		return nil, err
+	}
+	return &worker{cmd: cmd, in: in, out: bufio.NewReaderSize(o, 1<<20)}, nil
+}
+func (w *worker) kill() {
+	w.in.Close()
+	w.cmd.Process.Kill()
+	w.cmd.Wait()
+}
+
+type dispatcher struct {
+	w     *worker
+	tier  string
+	bound time.Duration
+}
+
+func (d *dispatcher) exec(line string) string {
+	if i := strings.Index(line, " => "); i >= 0 {
+		line = line[:i]
+	}
+	for attempt := 0; attempt < 2; attempt++ {
+		if d.w == nil {
+			w, err := startWorker(d.tier)
+			if err != nil {
+				fmt.Fprintln(os.Stderr, "c07: cannot start worker:", err)
+				return line + " => invalid"
+			}
+			d.w = w
+		}
+		if _, err := io.WriteString(d.w.in, line+"\n"); err != nil {
+			d.w.kill()
+			d.w = nil
+			continue
+		}
+		type rd struct {
+			s   string
+			err error
+		}
+		ch := make(chan rd, 1)
+		go func(w *worker) {
+			s, err := w.out.ReadString('\n')
+			ch <- rd{s, err}
+		}(d.w)
+		select {
+		case r := <-ch:
+			if r.err != nil {
+				// the real code killed the process (e.g. an unrecovered panic in a node goroutine)
+				d.w.kill()
+				d.w = nil
+				return line + " => panic"
+			}
+			res := strings.TrimRight(r.s, "\n")
+			if strings.Contains(res, " hang ") {
+				d.w.kill()
+				d.w = nil
+			}
+			return res
+		case <-time.After(d.bound + 40*time.Second):
+			d.w.kill()
+			d.w = nil
+			return line + " => stuck"
+		}
+	}
+	return line + " => invalid"
+}
+func (d *dispatcher) close() {
+	if d.w != nil {
+		d.w.in.Close()
+		d.w.cmd.Wait()
+	}
+}
+
 func Run(args []string) int {
-	fmt.Fprintln(os.Stderr, "c07: harness not implemented yet")
-	return 3
+	fl := kit.ParseFlags(args)
+	out := kit.NewOut()
+	defer out.Flush()
+	bound := 6 * time.Second
+	if fl.Tier == "thorough" {
+		bound = 12 * time.Second
+	}
+	if fl.Extra["child"] != "" {
+		return runChild(bound)
+	}
+	d := &dispatcher{tier: fl.Tier, bound: bound}
+	defer d.close()
+	if fl.Ops != "" {
+		lines, err := kit.ReadLines(fl.Ops)
+		if err != nil {
+			fmt.Fprintln(os.Stderr, err)
+			return 2
+		}
+		for _, l := range lines {
+			t := strings.Fields(l)
+			if len(t) == 0 {
+				continue
+			}
+			if t[0] == "case" || t[0] == "end" {
+				out.Line(l)
+				out.Flush()
+				continue
+			}
+			out.Line(d.exec(l))
+			out.Flush()
+		}
+		return 0
+	}
+	r := kit.NewRand(fl.Seed)
+	for i := 0; i < fl.N; i++ {
+		chain, stop, class, n := genCase(r, i, fl.Tier)
+		out.Linef("case g%d", i)
+		out.Line(d.exec(opLine(chain, stop, class, n)))
+		out.Line("end")
+		out.Flush()
+	}
+	return 0
 }
